@@ -18,6 +18,10 @@ SHRINK_MIN = {"nchans": 1, "nbits": 1, "n": 1}
 SHRINK_SIMPLE = {"stale": 0}
 KINDS = ["fil", "fil", "fil", "block", "tim", "dat", "spec", "fft"]
 DT = ["uint8", "uint16", "int64", "float32", "float64"]
+# further in-memory types a caller holds (astropy hands out big-endian arrays; integer arithmetic gives int32/int16):
+# same item WIDTH as some file depth but another kind or byte order; always filled with representable values
+DT_FOREIGN = ["int32", "uint32", "int16", ">u2", ">f4", ">i4", "float16"]
+DT_TOP = {"uint8": 255, "int16": 32767, "float16": 2048}
 
 
 def warm() -> None:
@@ -49,7 +53,10 @@ def generate(rng, tier) -> dict:
         for _ in range(rng.randint(1, 6)):
             natural = {1: "uint8", 2: "uint8", 4: "uint8", 8: "uint8", 16: "uint16", 32: "float32"}[d]
             dt = natural if rng.random() < 0.5 else rng.choice(DT)
-            sc["ops"].append({"op": "cwrite", "n": rng.randint(1, mx // 3), "dtype": dt, "vals": "rep" if rng.random() < 0.85 else "unrep",
+            foreign = rng.random() < 0.15
+            if foreign:
+                dt = rng.choice(DT_FOREIGN)
+            sc["ops"].append({"op": "cwrite", "n": rng.randint(1, mx // 3), "dtype": dt, "vals": "rep" if (foreign or rng.random() < 0.85) else "unrep",
                               "layout": rng.choice(["1d", "1d", "1d", "1d-strided", "2d-C", "2d-F"])})
         sc["reads"] = [[rng.random(), rng.random()] for _ in range(2)]
         # an EARLIER product written from the same header at another depth (a session that writes several files)
@@ -107,15 +114,13 @@ def chunk_values(sc, op, t0):
         return arr.ravel(), None
     # representable in BOTH the file depth and the in-memory dtype
     if d == 32:
-        if dt == np.float32:
+        if dt == np.float32 and dt.isnative:
             exp = filgen.make_samples(sc["vseed"], n, nch, 32, "bits", t0)
         else:
-            top = 255 if dt == np.uint8 else 60000
+            top = min(60000, DT_TOP.get(dt.name, 60000))
             exp = (filgen.make_samples(sc["vseed"], n, nch, 16, "bits", t0).astype(np.int64) % (top + 1)).astype(np.float32)
-        return exp.astype(dt).ravel() if dt != np.float32 else exp.ravel(), exp
-    top = (1 << d) - 1
-    if dt == np.uint8:
-        top = min(top, 255)
+        return exp.astype(dt).ravel() if not (dt == np.float32 and dt.isnative) else exp.ravel(), exp
+    top = min((1 << d) - 1, DT_TOP.get(dt.name, 1 << 40))
     exp = (filgen.make_samples(sc["vseed"], n, nch, 16, "bits", t0).astype(np.int64) % (top + 1)).astype(fdt)
     return exp.astype(dt).ravel(), exp
 
